@@ -187,6 +187,10 @@ def st_perm_case(draw):
             "lower": lower, "comma": use_comma, "bk": bk, "gens": gens,
             "antisym_result": draw(st.booleans()),
             "give_targets": draw(st.integers(0, 4)) != 0,
+            "split": ([draw(st.integers(0, 7)),
+                       *draw(st.sampled_from([(1, 2), (1, 3), (2, 1),
+                                              (-1, 2)]))]
+                      if draw(st.integers(0, 3)) == 0 else None),
             "spin": base["spin"], "mseed": draw(st.integers(0, 2**31))}
 
 
@@ -213,6 +217,30 @@ def run_perm(case, r):
     expr = S(expr).expand()
     if expr == 0:
         raise BadCase("vanishes")
+    if case.get("split"):
+        # not fully simplified input: one term is replaced by c1*term +
+        # c2*(copy with renamed contracted indices), c1 + c2 = 1 - the image
+        # of its partner under a permutation is then spread over two terms
+        from sympy import Rational
+        from adcgen.indices import get_symbols
+        k_, p_, q_ = case["split"]
+        args = list(Add.make_args(expr))
+        t_ = args[int(k_) % len(args)]
+        contracted = sorted((i for i in t_.atoms(Index)
+                             if i not in targets), key=idx_key)
+        if contracted and int(q_) != 0 and int(p_) not in (0, int(q_)):
+            fresh = {"occ": ["m8", "n8", "o8", "m9", "n9"],
+                     "virt": ["f8", "g8", "h8", "f9", "g9"]}
+            mp = {}
+            for i in contracted:
+                if i.space not in fresh or not fresh[i.space]:
+                    raise BadCase("no fresh name")
+                mp[i] = get_symbols([fresh[i.space].pop(0)],
+                                    i.spin if i.spin else None)[0]
+            c1 = Rational(int(p_), int(q_))
+            args[int(k_) % len(args)] = c1 * t_ + (1 - c1) * rebuild(t_, mp)
+            expr = Add(*args)
+            r.cls("split_term")
     e = Expr(expr)
     kw = {"bra_ket_sym": case["bk"],
           "antisymmetric_result_tensor": case["antisym_result"]}
@@ -423,6 +451,99 @@ def run_dec(case, r):
     r.cls(fn, f"keys={min(len(parts), 4)}")
 
 
+# ---------------------------------------------------- (d) LazyTermMap
+@st.composite
+def st_tmap_case(draw):
+    """An expression symmetrised by several transpositions of target indices
+    and a *sequence* of symmetry requests (products of 1-3 transpositions,
+    incl. cyclic products, factor +-1) on one LazyTermMap."""
+    cfg = Cfg(max_obj=3, min_obj=1, max_terms=1, max_target=4, max_exp=1,
+              allow_hyper=False, allow_explicit=False, allow_general=False,
+              allow_symbols=False, max_slots=9, spin_modes=[False],
+              names=["V", "f", "d", "t1", "t2", "X", "Y", "R", "x", "z",
+                     "y"])
+    base = draw(st_expr_case(cfg))
+    tg = sorted(base["targets"])
+    pairs = [(a, b) for a, b in itertools.combinations(tg, 2)
+             if label_class(a) == label_class(b)]
+    if not pairs:
+        # nothing to permute: still a (trivial) request
+        return {"sub": "tmap", "terms": base["terms"], "targets": tg,
+                "gens": [], "queries": [], "mseed": 0}
+    gens = [[*draw(st.sampled_from(pairs)), draw(st.sampled_from([1, -1]))]
+            for _ in range(draw(st.integers(1, 3)))]
+    queries = []
+    for _ in range(draw(st.integers(1, 5))):
+        n = draw(st.sampled_from([1, 1, 2, 2, 2, 3]))
+        q = [list(draw(st.sampled_from(pairs))) for _ in range(n)]
+        if queries and draw(st.integers(0, 2)) == 0:
+            # the same product in reversed order (= the inverse permutation)
+            q = [list(x) for x in reversed(queries[-1][0])]
+        queries.append([q, draw(st.sampled_from([1, -1]))])
+    return {"sub": "tmap", "terms": base["terms"], "targets": tg,
+            "gens": gens, "queries": queries,
+            "mseed": draw(st.integers(0, 2**31))}
+
+
+def run_tmap(case, r):
+    from adcgen.symmetry import LazyTermMap, Permutation, PermutationProduct
+    tl = case["targets"]
+    targets = tuple(sorted(syms(tl), key=idx_key))
+    terms = [build_term(t) for t in case["terms"]]
+    terms = [t for t in terms if t != 0]
+    if not terms:
+        raise BadCase("zero")
+    expr = Add(*terms)
+    for a_, b_, f in case["gens"]:
+        a, b = sym(a_), sym(b_)
+        expr = expr + f * rebuild(expr, {a: b, b: a})
+    expr = S(expr).expand()
+    if expr == 0:
+        raise BadCase("vanishes")
+    e = Expr(expr)
+    if any(set(t.target) != set(targets) for t in e.terms):
+        raise BadCase("terms with different targets")
+    r.sample = f"LazyTermMap({e})[{case['queries']}]"
+    ok, tm = lib_call(r, "LazyTermMap", LazyTermMap, e.copy())
+    if not ok:
+        return
+    lib_terms = tm._terms
+    m = Model(case["mseed"], 2, 3)
+    vals = [evaluate(m, t.sympy, targets) for t in lib_terms]
+    n_entries = 0
+    cyc = False
+    for q, factor in case["queries"]:
+        if any(x not in tl or y not in tl or x == y or
+               label_class(x) != label_class(y) for x, y in q):
+            raise BadCase("bad permutation")
+        key = PermutationProduct(tuple(Permutation(sym(x), sym(y))
+                                       for x, y in q))
+        ok, mp = lib_call(r, "LazyTermMap.getitem", tm.__getitem__,
+                          (key, factor), refusals=(NotImplementedError,))
+        if not ok:
+            return
+        if len(q) >= 2 and len({frozenset(x) for x in q}) >= 2 and \
+                len(set(sum(q, []))) < 2 * len(q):
+            cyc = True
+        for i, j in mp.items():
+            n_entries += 1
+            a = vals[i]
+            for p_, q_ in key:   # applied one after another
+                a = np.swapaxes(a, targets.index(p_), targets.index(q_))
+            if not (a == (factor * vals[j]) % P).all():
+                r.fail("termmap/entry",
+                       f"LazyTermMap({e}): request ({key}, {factor}) "
+                       f"(sequence {case['queries']}) reports term {i} -> "
+                       f"term {j}, but P*term_i != factor*term_j: "
+                       f"{lib_terms[i]} vs {lib_terms[j]}")
+                return
+    r.nontrivial = n_entries >= 1
+    r.cls("term_map", f"entries={min(n_entries, 4)}",
+          f"n_requests={len(case['queries'])}")
+    if cyc and n_entries:
+        r.cls("term_map_cyclic_product")
+
+
 def run_case(case):
     r = R()
     sub = case.get("sub")
@@ -432,13 +553,16 @@ def run_case(case):
         run_perm(case, r)
     elif sub == "dec":
         run_dec(case, r)
+    elif sub == "tmap":
+        run_tmap(case, r)
     else:
         raise BadCase("sub")
     return r
 
 
 def strategy(tier):
-    return st.one_of(st_sym_case(), st_perm_case(), st_dec_case())
+    return st.one_of(st_sym_case(), st_perm_case(), st_dec_case(),
+                     st_tmap_case())
 
 
 def run_shard(col, shard, nshards, seed, tier):
